@@ -1,6 +1,7 @@
 package main
 
 import (
+	"fmt"
 	"gonum.org/v1/gonum/mat"
 	"gonum.org/v1/gonum/verifx/vrt"
 )
@@ -23,6 +24,11 @@ type factors struct {
 	qr    map[int]*mat.QR // by number of rows m >= n
 	lq    map[int]*mat.LQ // by number of rows m <= n
 	tri   *mat.TriDense
+	band  *mat.BandDense
+	sband *mat.SymBandDense
+	tdiag *mat.Tridiag
+	tband *mat.TriBandDense
+	svd   mat.SVD
 }
 
 // facCache holds one executor's factorizations. They are NOT shared between
@@ -158,6 +164,32 @@ func (facByN facCache) get(n, vc int) *factors {
 			f.tri.SetTri(i, j, v)
 		}
 	}
+	// Band, symmetric band, tridiagonal and triangular band matrices (band
+	// width 1) and an SVD, with the same treatment of the last diagonal entry.
+	kb := k
+	f.band = mat.NewBandDense(n, n, kb, kb, nil)
+	f.tband = mat.NewTriBandDense(n, kb, mat.Upper, nil)
+	dl, dd, du := make([]float64, max(n-1, 0)), make([]float64, n), make([]float64, max(n-1, 0))
+	for i := 0; i < n; i++ {
+		v := float64(n) + 3 + 0.5*float64(i)
+		if i == n-1 {
+			v *= scale
+		}
+		dd[i] = v
+		f.band.SetBand(i, i, v)
+		f.tband.SetTriBand(i, i, v)
+		if i+1 < n {
+			dl[i], du[i] = 0.75, -0.5
+			f.band.SetBand(i+1, i, 0.75)
+			f.band.SetBand(i, i+1, -0.5)
+			f.tband.SetTriBand(i, i+1, -0.5)
+		}
+	}
+	f.sband = sb
+	f.tdiag = mat.NewTridiag(n, dl, dd, du)
+	if !f.svd.Factorize(a, mat.SVDFull) {
+		panic("c05: svd failed")
+	}
 	facByN[key] = f
 	return f
 }
@@ -209,6 +241,39 @@ var (
 	}}
 )
 
+// Further dst-style methods: band matrix times vector, band / tridiagonal
+// solves, SVD least squares (status = the returned residuals).
+var xOnly = []string{"x"}
+var (
+	mBandMulVecTo = &method{name: "BandDense.MulVecTo", pos: xOnly, toStyle: true, call: func(r any, o []mat.Matrix, cs *caseSpec) {
+		cs.fac.get(cs.n, cs.vclass).band.MulVecTo(vd(r), cs.trans, vv(o[0]))
+	}}
+	mSBandMulVecTo = &method{name: "SymBandDense.MulVecTo", pos: xOnly, toStyle: true, call: func(r any, o []mat.Matrix, cs *caseSpec) {
+		cs.fac.get(cs.n, cs.vclass).sband.MulVecTo(vd(r), cs.trans, vv(o[0]))
+	}}
+	mTdiagMulVecTo = &method{name: "Tridiag.MulVecTo", pos: xOnly, toStyle: true, call: func(r any, o []mat.Matrix, cs *caseSpec) {
+		cs.fac.get(cs.n, cs.vclass).tdiag.MulVecTo(vd(r), cs.trans, vv(o[0]))
+	}}
+	mTBandSolveTo = &method{name: "TriBandDense.SolveTo", pos: bOnly, toStyle: true, call: func(r any, o []mat.Matrix, cs *caseSpec) {
+		cs.status = errClass(cs.fac.get(cs.n, cs.vclass).tband.SolveTo(dn(r), cs.trans, o[0]))
+	}}
+	mTBandSolveVecTo = &method{name: "TriBandDense.SolveVecTo", pos: bOnly, toStyle: true, call: func(r any, o []mat.Matrix, cs *caseSpec) {
+		cs.status = errClass(cs.fac.get(cs.n, cs.vclass).tband.SolveVecTo(vd(r), cs.trans, vv(o[0])))
+	}}
+	mTdiagSolveTo = &method{name: "Tridiag.SolveTo", pos: bOnly, toStyle: true, call: func(r any, o []mat.Matrix, cs *caseSpec) {
+		cs.status = errClass(cs.fac.get(cs.n, cs.vclass).tdiag.SolveTo(dn(r), cs.trans, o[0]))
+	}}
+	mTdiagSolveVecTo = &method{name: "Tridiag.SolveVecTo", pos: bOnly, toStyle: true, call: func(r any, o []mat.Matrix, cs *caseSpec) {
+		cs.status = errClass(cs.fac.get(cs.n, cs.vclass).tdiag.SolveVecTo(vd(r), cs.trans, vv(o[0])))
+	}}
+	mSVDSolveTo = &method{name: "SVD.SolveTo", pos: bOnly, toStyle: true, call: func(r any, o []mat.Matrix, cs *caseSpec) {
+		cs.status = fmt.Sprint(cs.fac.get(cs.n, vcWell).svd.SolveTo(dn(r), o[0], cs.n))
+	}}
+	mSVDSolveVecTo = &method{name: "SVD.SolveVecTo", pos: bOnly, toStyle: true, call: func(r any, o []mat.Matrix, cs *caseSpec) {
+		cs.status = fmt.Sprint(cs.fac.get(cs.n, vcWell).svd.SolveVecTo(vd(r), vv(o[0]), cs.n))
+	}}
+)
+
 type solveForm struct {
 	m     *method
 	trans bool
@@ -223,7 +288,8 @@ func genSolveTo(e *emitter, i int) {
 	privKinds := []kind{kDense, kDenseT, kBasic, kVec, kRawWrap}
 	// square systems: b is n x c like dst
 	sq := []solveForm{{mLUSolveTo, false}, {mLUSolveTo, true}, {mCholSolveTo, false}, {mBCholSolveTo, false},
-		{mPCholSolveTo, false}, {mTriSolveTo, false}, {mTriSolveTo, true}}
+		{mPCholSolveTo, false}, {mTriSolveTo, false}, {mTriSolveTo, true},
+		{mTBandSolveTo, false}, {mTBandSolveTo, true}, {mTdiagSolveTo, false}, {mTdiagSolveTo, true}, {mSVDSolveTo, false}}
 	for _, f := range sq {
 		opt := caseSpec{n: n, trans: f.trans}
 		e.run(f.m, recv, []opnd{identical(recv, false)}, opt)
@@ -285,7 +351,9 @@ func genSolveVecTo(e *emitter, i int) {
 	u := e.u
 	recv := e.sh(kVec, u.vwins[i])
 	n := recv.w.r
-	sq := []solveForm{{mLUSolveVecTo, false}, {mLUSolveVecTo, true}, {mCholSolveVecTo, false}, {mBCholSolveVecTo, false}, {mPCholSolveVecTo, false}}
+	sq := []solveForm{{mLUSolveVecTo, false}, {mLUSolveVecTo, true}, {mCholSolveVecTo, false}, {mBCholSolveVecTo, false}, {mPCholSolveVecTo, false},
+		{mTBandSolveVecTo, false}, {mTBandSolveVecTo, true}, {mTdiagSolveVecTo, false}, {mTdiagSolveVecTo, true}, {mSVDSolveVecTo, false},
+		{mBandMulVecTo, false}, {mBandMulVecTo, true}, {mSBandMulVecTo, false}, {mTdiagMulVecTo, false}, {mTdiagMulVecTo, true}}
 	for _, f := range sq {
 		opt := caseSpec{n: n, trans: f.trans}
 		e.run(f.m, recv, []opnd{identical(recv, false)}, opt)
